@@ -140,6 +140,23 @@ func decoderPostProcessing(c *Ctx, rule string) {
 					if st, ok := ref.(*ssa.Store); ok && st.Addr == ssa.Value(x) && fromInput(st.Val, d+1) {
 						return true
 					}
+					// the cell is filled by a callee that also gets the Lexer or other input (route.Unmarshal(buf))
+					if cl, ok := ref.(*ssa.Call); ok {
+						for _, a := range cl.Call.Args {
+							if a != ssa.Value(x) && (isLexV(a) || fromInput(a, d+1)) {
+								return true
+							}
+						}
+					}
+					// elements / fields of the cell (the array behind a variadic argument list, a composite literal)
+					switch a := ref.(type) {
+					case *ssa.IndexAddr, *ssa.FieldAddr:
+						for _, r2 := range *a.(ssa.Value).Referrers() {
+							if st, ok := r2.(*ssa.Store); ok && st.Addr == a.(ssa.Value) && fromInput(st.Val, d+1) {
+								return true
+							}
+						}
+					}
 				}
 				return false
 			case *ssa.Const, *ssa.Global, *ssa.Function, *ssa.Builtin, *ssa.FreeVar:
@@ -153,6 +170,46 @@ func decoderPostProcessing(c *Ctx, rule string) {
 				}
 			}
 			return false
+		}
+		// the same step written in place (or inlined by the normalisation pre-pass): after the first read, a store into the
+		// receiver of a value that is computed from the receiver's own content and from nothing of the input
+		for _, b := range f.Blocks {
+			for i, in := range b.Instrs {
+				st, ok := in.(*ssa.Store)
+				if !ok || !fromRecv(st.Addr, 0) || !afterRead(b, i) {
+					continue
+				}
+				if _, isConst := st.Val.(*ssa.Const); isConst {
+					continue
+				}
+				// the stored value: derived from a load of the receiver, and not from the input
+				derivesRecv := false
+				seenV := map[ssa.Value]bool{}
+				var walk func(v ssa.Value, d int)
+				walk = func(v ssa.Value, d int) {
+					if v == nil || seenV[v] || d > 12 {
+						return
+					}
+					seenV[v] = true
+					if u, isLoad := v.(*ssa.UnOp); isLoad && fromRecv(u.X, 0) {
+						derivesRecv = true
+						return
+					}
+					if ins, isIn := v.(ssa.Instruction); isIn {
+						for _, op := range ins.Operands(nil) {
+							if *op != nil {
+								walk(*op, d+1)
+							}
+						}
+					}
+				}
+				walk(st.Val, 0)
+				if !derivesRecv || fromInput(st.Val, 0) {
+					continue
+				}
+				r.Violation(rule, shortName(f)+": decoded value rewritten in place after the input was read", c.P.ipos(st),
+					"after reading, the decoder stores into its receiver a value computed from the receiver's own content and from nothing of the input ("+c.Sx().Of(st.Val).String()+"): the decoded value is normalised (de-duplicated, sorted, trimmed) after decoding — the fields no longer hold what the wire carried")
+			}
 		}
 		for _, b := range f.Blocks {
 			for i, in := range b.Instrs {
